@@ -712,9 +712,15 @@ class Stmt:
             return q.render(r)
         if k == "update":
             e = self.extra
-            s = f"update {tn} set " + ", ".join(f"{r.ident(a)} = {b.render(r)}" for a, b in e["set"])
-            if e.get("from"):
-                s += " from " + ", ".join(g.render(r) for g in e["from"])
+            if e.get("alias_target"):
+                # T-SQL idiom: the statement names its target by the alias the FROM clause gives it (UPDATE x SET ... FROM tab x, src s)
+                al = r.ident(e["alias_target"])
+                s = f"update {al} set " + ", ".join(f"{r.ident(a)} = {b.render(r)}" for a, b in e["set"])
+                s += " from " + ", ".join([f"{tn} {al}"] + [g.render(r) for g in e.get("from") or []])
+            else:
+                s = f"update {tn} set " + ", ".join(f"{r.ident(a)} = {b.render(r)}" for a, b in e["set"])
+                if e.get("from"):
+                    s += " from " + ", ".join(g.render(r) for g in e["from"])
             if e.get("where") is not None:
                 s += " where " + e["where"].render(r)
             return s
@@ -790,6 +796,8 @@ class Stmt:
             t.add("name.schema_qualified")
         if self.kind == "update":
             e = self.extra
+            if e.get("alias_target"):
+                t.add("update.alias_target")
             if e.get("from"):
                 t.add("update.from")
                 for g in e["from"]:
